@@ -145,45 +145,67 @@ def _within(v, lo, hi):
 def unit_dot_idiom(fn):
     """angle_distance_factors: the middle return value is the dot product of
     two vectors each divided by its own Euclidean length -> [-1, 1] (Cauchy-
-    Schwarz); the outer two are lengths >= 0.  Checked structurally."""
+    Schwarz); the outer two are those lengths.  Checked on the expanded
+    (canonical) return expressions, one alternative of the branch at a time,
+    so it does not matter through which locals or helpers the code gets there."""
+    import copy
     rets = [r for r in walk_no_nested(fn) if isinstance(r, ast.Return)]
     if len(rets) != 1 or not isinstance(rets[0].value, ast.Tuple) or len(rets[0].value.elts) != 3:
         return False
-    d1, f, d2 = [norm(e) for e in rets[0].value.elts]
-    defs = {}
-    for s in walk_no_nested(fn):
-        if isinstance(s, ast.Assign) and isinstance(s.targets[0], ast.Name):
-            defs.setdefault(s.targets[0].id, []).append(s.value)
-    if f not in defs or len(defs[f]) != 1:
+    can = canon(fn)
+    exps = [can.expr(e) for e in rets[0].value.elts]
+    arities = {len(n.args) for e in exps for n in ast.walk(e)
+               if isinstance(n, ast.Call) and isinstance(n.func, ast.Name) and n.func.id == 'alt'}
+    if len(arities) > 1:
         return False
-    terms = norm(defs[f][0]).replace(' ', '').split('+')
-    if len(terms) != 3:
-        return False
-    vecs = [[], []]
-    for t in terms:
-        ab = t.split('*')
-        if len(ab) != 2:
+    n_alt = arities.pop() if arities else 1
+
+    class Pick(ast.NodeTransformer):
+        def __init__(self, k):
+            self.k = k
+
+        def visit_Call(self, node):
+            self.generic_visit(node)
+            if isinstance(node.func, ast.Name) and node.func.id == 'alt':
+                return node.args[self.k]
+            return node
+
+    def txt(e):
+        return norm(e).replace(' ', '')
+
+    def addends(e):
+        if isinstance(e, ast.BinOp) and isinstance(e.op, ast.Add):
+            return addends(e.left) + addends(e.right)
+        return [e]
+
+    def is_length_of(length, comps):
+        if not (isinstance(length, ast.Call) and call_name(length) == 'math.sqrt' and len(length.args) == 1):
             return False
-        vecs[0].append(ab[0])
-        vecs[1].append(ab[1])
-    for comps, dist in ((vecs[0], None), (vecs[1], None)):
-        # every component is last assigned as comp = comp / <dist>, with
-        # dist = math.sqrt(comp*comp + ...) over exactly these components
-        dists = set()
-        for c in comps:
-            last = defs.get(c, [None])[-1]
-            if not (isinstance(last, ast.BinOp) and isinstance(last.op, ast.Div)
-                    and norm(last.left) == c):
+        sq = addends(length.args[0])
+        if len(sq) != 3 or not all(isinstance(t, ast.BinOp) and isinstance(t.op, ast.Mult)
+                                   and txt(t.left) == txt(t.right) for t in sq):
+            return False
+        return sorted(txt(t.left) for t in sq) == sorted(txt(c) for c in comps)
+    for k in range(n_alt):
+        d1, f, d2 = [Pick(k).visit(copy.deepcopy(e)) for e in exps]
+        terms = addends(f)
+        if len(terms) != 3:
+            return False
+        va, la, vb, lb = [], set(), [], set()
+        for t in terms:
+            if not (isinstance(t, ast.BinOp) and isinstance(t.op, ast.Mult)
+                    and all(isinstance(x, ast.BinOp) and isinstance(x.op, ast.Div) for x in (t.left, t.right))):
                 return False
-            dists.add(norm(last.right))
-        if len(dists) != 1:
+            va.append(t.left.left)
+            la.add(txt(t.left.right))
+            vb.append(t.right.left)
+            lb.add(txt(t.right.right))
+        if len(la) != 1 or len(lb) != 1:
             return False
-        dname = dists.pop()
-        if dname not in (d1, d2) or dname not in defs:
+        la_node, lb_node = terms[0].left.right, terms[0].right.right
+        if not (is_length_of(la_node, va) and is_length_of(lb_node, vb)):
             return False
-        want = sorted('%s*%s' % (c, c) for c in comps)
-        got = sorted(norm(defs[dname][0]).replace(' ', '').replace('math.sqrt(', '').rstrip(')').split('+'))
-        if got != want or not norm(defs[dname][0]).startswith('math.sqrt('):
+        if {txt(d1), txt(d2)} != {txt(la_node), txt(lb_node)}:
             return False
     return True
 
@@ -647,26 +669,33 @@ def run(ctx):
     flt = [n for n in walk_no_nested(iad) if isinstance(n, ast.If)
            and 'UNK_MIN_VALUE' in norm(n.test)]
     def symmetric_threshold(test):
-        """name X when the test is UNK_MIN_VALUE < |X| in either spelling (the
-        loader has oriented every ordering comparison with '<')"""
+        """name X when the test is c < |X| for a positive constant c, in either
+        spelling (the loader has oriented every ordering comparison with '<' and
+        replaced module constants by their values)"""
+        consts16 = module_constants(imod, True)
+
+        def pos_const(e):
+            v = try_fold(e, consts16)
+            return v if isinstance(v, (int, float)) and v > 0 else None
         if isinstance(test, ast.Compare) and len(test.ops) == 1 and isinstance(test.ops[0], (ast.Lt, ast.LtE)) \
                 and isinstance(test.comparators[0], ast.Call) and call_name(test.comparators[0]) == 'abs' \
-                and norm(test.left) == 'UNK_MIN_VALUE':
+                and pos_const(test.left) is not None:
             return norm(test.comparators[0].args[0])
         if isinstance(test, ast.BoolOp) and isinstance(test.op, ast.Or) and len(test.values) == 2 \
                 and all(isinstance(v, ast.Compare) and len(v.ops) == 1
                         and isinstance(v.ops[0], (ast.Lt, ast.LtE)) for v in test.values):
-            forms = set()
-            names = set()
+            above, below, names = None, None, set()
             for v in test.values:
-                l, r = norm(v.left).replace(' ', ''), norm(v.comparators[0]).replace(' ', '')
-                if l == 'UNK_MIN_VALUE':            # UNK_MIN_VALUE < X
-                    forms.add('above')
-                    names.add(r)
-                elif r == '-UNK_MIN_VALUE':         # X < -UNK_MIN_VALUE
-                    forms.add('below')
-                    names.add(l)
-            if forms == {'above', 'below'} and len(names) == 1:
+                l, r = v.left, v.comparators[0]
+                if pos_const(l) is not None:                 # c < X
+                    above = pos_const(l)
+                    names.add(norm(r).replace(' ', ''))
+                else:
+                    neg = try_fold(r, consts16)
+                    if isinstance(neg, (int, float)) and neg < 0:   # X < -c
+                        below = -neg
+                        names.add(norm(l).replace(' ', ''))
+            if above is not None and below is not None and abs(above - below) < 1e-15 and len(names) == 1:
                 return names.pop()
         return None
     # the threshold is a condition on the way to the construction of the real
